@@ -496,7 +496,7 @@ func init() {
 func init() {
 	mutant("teardown-waits-for-ever", "server-teardown-bounded", "serverConn.go", "		select {\n		case <-writeDone:\n		case <-time.After(writeDrainTimeout):\n		}", "		<-writeDone")
 	mutant("write-stop-never-closed", "server-teardown-bounded", "serverConn.go", "		close(sc.writeStop)\n	}()", "	}()")
-	mutant("socket-left-open-by-writer", "server-teardown-bounded", "serverConn.go", "		defer func() {\n			_ = sc.c.Close()\n		}()\n\n		sc.writeLoop()", "		sc.writeLoop()")
+	mutant("socket-left-open-by-writer", "server-teardown-bounded", "serverConn.go", "		defer func() {\n			_ = sc.c.Close()\n		}()\n\n		// Whoever is waiting", "		// Whoever is waiting")
 }
 
 func init() {
@@ -647,4 +647,14 @@ func init() {
 	mutant("client-malformed-response-not-reset", "client-block-state", "conn.go", "	if fr.Type() != FrameResetStream {\n		c.cancelStream(fr.Stream(), ProtocolError)\n	}\n", "")
 	mutant("client-answers-a-reset-with-a-reset", "client-block-state", "conn.go", "	if fr.Type() != FrameResetStream {\n		c.cancelStream(fr.Stream(), ProtocolError)\n	}\n", "	c.cancelStream(fr.Stream(), ProtocolError)\n")
 	mutant("client-carries-on-after-a-compression-error", "client-block-state", "conn.go", "	if errors.As(err, &connErr) && connErr.frameType == FrameGoAway {\n		c.setLastErr(err)\n\n		return true", "	if errors.As(err, &connErr) && connErr.frameType == FrameGoAway {\n		c.setLastErr(err)\n\n		return false")
+}
+
+func init() {
+	mutant("closed-misaligned-on-32-bit", "atomic64-alignment", "conn.go", "	done chan struct{}\n\n	closed uint64\n", "	done chan struct{}\n\n	pad32 uint32\n\n	closed uint64\n")
+	mutant("stream-window-misaligned-on-32-bit", "atomic64-alignment", "stream.go", "	window              int64\n	id                  uint32\n", "	id                  uint32\n	window              int64\n")
+	mutant("blocked-writers-never-released", "server-teardown-bounded", "serverConn.go", "	case <-sc.writeGone:\n		ReleaseFrameHeader(fr)\n", "")
+	mutant("write-loop-exit-not-announced", "server-teardown-bounded", "serverConn.go", "		defer close(sc.writeGone)\n", "")
+	mutant("connection-error-leaves-writes-unbounded", "server-teardown-bounded", "serverConn.go", "	if code != NoError {\n		sc.limitWrites(writeDrainTimeout)\n	}\n", "")
+	mutant("write-limit-not-applied-to-the-write-in-progress", "server-teardown-bounded", "serverConn.go", "	if sc.c != nil {\n		_ = sc.c.SetWriteDeadline(time.Now().Add(d))\n	}\n", "")
+	mutant("write-limit-not-applied-to-later-writes", "server-teardown-bounded", "serverConn.go", "		if d := sc.writeLimit.Load(); d > 0 {\n			_ = sc.c.SetWriteDeadline(time.Now().Add(time.Duration(d)))\n		}\n", "")
 }
